@@ -214,8 +214,12 @@ class InRamPolicySupporter(policy_supporter.PolicySupporter):
 
     if self.study_config.is_single_objective:
       # Single metric: Sort and take top N.
-      count = count or 1  # Defaults to 1.
-      labels = converter.to_labels(warped_trials).squeeze()
+      labels = converter.to_labels(warped_trials).reshape(-1)
+      if count is None:
+        # All tied top trials.
+        if np.all(np.isnan(labels)):
+          return []
+        return list(np.asarray(candidates)[labels == np.nanmax(labels)])
       sorted_idx = np.argsort(-labels)  # np.argsort sorts in ascending order.
       return list(np.asarray(candidates)[sorted_idx[:count]])
     else:
